@@ -132,7 +132,15 @@ def generate(o):
         return outer.test, inner.test
 
     def bump(attr):
-        g = [n for n in upd() if isinstance(n, ast.If) and not n.orelse and len(n.body) == 1 and nows(n.body[0]) == "h.%s=value" % attr]
+        def sets(n, a):
+            return isinstance(n, ast.If) and len(n.body) == 1 and nows(n.body[0]) == "h.%s=value" % a
+
+        other = "max" if attr == "min" else "min"
+        top = upd()
+        # two independent statements, or one `if … elif …` chain over the two bounds (which of the two it is is
+        # `Gen.DistogramOps.bumpChained`, harness/extractors/c13ops.py): the test is lifted either way
+        g = [n for n in top if sets(n, attr) and (not n.orelse or (len(n.orelse) == 1 and sets(n.orelse[0], other) and not n.orelse[0].orelse))]
+        g += [n.orelse[0] for n in top if sets(n, other) and len(n.orelse) == 1 and sets(n.orelse[0], attr) and not n.orelse[0].orelse]
         t = one(g, "update: if (h.%s is None) or ...: h.%s = value" % (attr, attr)).test
         if not (isinstance(t, ast.BoolOp) and isinstance(t.op, ast.Or) and len(t.values) == 2 and nows(t.values[0]) == "h.%sisNone" % attr):
             raise KeyError("update: (h.%s is None) or (...)" % attr)
